@@ -8,4 +8,5 @@ CONSTANTS
   Mode = "trace"
   RestoreOnException = TRUE
   HandleCaptures = FALSE
+  SwitchShared = FALSE
 CHECK_DEADLOCK FALSE
